@@ -172,12 +172,18 @@ fn layer2(w: usize, b0: &'static [u8], b1: &'static [u8], b2: &'static [u8], b3:
         _ => None,
     };
     match want {
-        None => assert!(out.is_empty() && unsafe { NPIECES } == 0, "C18: no suggestion expected"),
+        None => assert!(out.is_empty(), "C18: no suggestion expected"),
         Some(i) => {
             assert!(!out.is_empty(), "C18: a suggestion is expected");
-            assert!(unsafe { NPIECES } == 3, "C18: the suggestion must name exactly one accepted string");
-            let (p, l) = unsafe { PIECES[1] };
-            assert!(p == all[i].as_ptr() as usize && l == all[i].len(), "C18: the suggestion must name the earliest accepted string at minimal distance");
+            if unsafe { NPIECES } == 0 {
+                // native replay: no probe, the real text is there
+                let want_txt = ["did you mean `", all[i], "`? "].concat();
+                assert!(out == want_txt, "C18: the suggestion must name the earliest accepted string at minimal distance");
+            } else {
+                assert!(unsafe { NPIECES } == 3, "C18: the suggestion must name exactly one accepted string");
+                let (p, l) = unsafe { PIECES[1] };
+                assert!(p == all[i].as_ptr() as usize && l == all[i].len(), "C18: the suggestion must name the earliest accepted string at minimal distance");
+            }
         }
     }
     kani::cover!(want == Some(0) && n.abs_diff(m[1]) == best.0, "tie: the earliest is named");
